@@ -49,6 +49,21 @@ def runCase (w : List String) : String :=
       | .done s => render id "ok" "-" s
       | .err e s => render id "err" (errName e) s
       | .fuel s => render id "fuel" "-" s
+  | ["H", id, hp, fuel, progA, progB] =>
+    -- history: program A, then (the USER_PUNCH block redefined in the next simulation) program B in the same engine
+    match unhexBytes (if progA == "-" then "" else progA), unhexBytes (if progB == "-" then "" else progB) with
+    | some a, some b =>
+      (match compileAndRun (α := Float) (hp == "1") fuel.toNat! (bytesToStr a) with
+       | .done s =>
+         let first := render (id ++ ".1") "ok" "-" s
+         let second := match compileAndRunFrom (carryOver s) fuel.toNat! (bytesToStr b) with
+           | .done s2 => render (id ++ ".2") "ok" "-" s2
+           | .err e s2 => render (id ++ ".2") "err" (errName e) s2
+           | .fuel s2 => render (id ++ ".2") "fuel" "-" s2
+         first ++ "\n" ++ second
+       | .err e s => render (id ++ ".1") "err" (errName e) s
+       | .fuel s => render (id ++ ".1") "fuel" "-" s)
+    | _, _ => s!"M {id} badinput"
   | _ => "M ? badline"
 
 def run : IO Unit := do
